@@ -333,6 +333,16 @@ class Canon(ast.NodeTransformer):
                 and not isinstance(node.value, (ast.Tuple, ast.List)):
             sub = ast.copy_location(ast.Subscript(value=node.value, slice=ast.Constant(value=0), ctx=ast.Load()), node.value)
             node = ast.copy_location(ast.Assign(targets=[node.targets[0].elts[0]], value=sub), node)
+        # a, b = t  (t a plain name) is  a = t[0]; b = t[1]   (what a and b are bound to; the length check of the unpacking aside)
+        if len(node.targets) == 1 and isinstance(node.targets[0], ast.Tuple) and 2 <= len(node.targets[0].elts) <= 3 and isinstance(node.value, ast.Name) \
+                and all(isinstance(e, ast.Name) and e.id != node.value.id for e in node.targets[0].elts):
+            out = []
+            for k, e in enumerate(node.targets[0].elts):
+                sub = ast.copy_location(ast.Subscript(value=ast.copy_location(ast.Name(id=node.value.id, ctx=ast.Load()), node.value), slice=ast.Constant(value=k), ctx=ast.Load()), node.value)
+                out.append(ast.copy_location(ast.Assign(targets=[e], value=sub), node))
+            for o in out:
+                ast.fix_missing_locations(o)
+            return out
         # D[k] = D[k] + e  is  D[k] += e   (an element update either way; plain names are left alone: for a list the two differ)
         if len(node.targets) == 1 and isinstance(node.targets[0], ast.Subscript) and isinstance(node.value, ast.BinOp) and isinstance(node.value.op, (ast.Add, ast.Sub, ast.Mult)) \
                 and ast.dump(_as_load(node.targets[0])) == ast.dump(node.value.left):
